@@ -84,7 +84,7 @@ func genShape(r *Rng, o *Out) structShape {
 	for i := 0; i <= nf; i++ {
 		if i == idPos {
 			ft := fieldTy{reflect.TypeOf(""), lst("a", "1", "0")}
-			api := []string{"t", "t", "t", "releases", "relx", "attrs", "rel-ations"}[r.IntN(7)] // legal names near the tag keywords
+			api := []string{"t", "t", "t", "releases", "relx", "attrs", "rel-ations", "t,v2"}[r.IntN(8)] // legal names near the tag keywords; a name with a comma
 			json := "id"
 			if adversarial {
 				switch r.IntN(6) {
